@@ -716,7 +716,10 @@ def run_units(ctx, theorems=None, n_maf=None, n_coup=None, batch=None):
                     ctx.sample(dict(layer=cfg, method=method, x=np.ravel(x).tolist(), condition=None if c is None else np.ravel(c).tolist(),
                                     model=line[:160], implementation=[np.ravel(iy).tolist(), ild]))
                 my, ml = parse_yl(line)
-                lclose = lambda a, b: close(a, b, 1e-9) or (a is not None and b is not None and abs(a - b) <= sl)
+                # spline layers: the log-derivative varies over orders of magnitude inside tiny bins, so the log-det amplifies the last-bit
+                # differences of the point (libm vs XLA) far beyond 1e-9 (sweep seed 41: 6e-7 with points equal to 2e-13): 5e-6 there
+                lrel = 5e-6 if tcfg["kind"] == "rqs" else 1e-9
+                lclose = lambda a, b: close(a, b, lrel) or (a is not None and b is not None and abs(a - b) <= sl)
                 ok = my != "ERR" and vclose(my, iy, 1e-9, sv) and lclose(ml, ild)
                 if not ok and not _already(ctx, ut, cfg, method):
                     ey, el = eager(obj, method, x, c)   # confirm on the un-jitted, un-batched real method
